@@ -439,7 +439,12 @@ class Gauss:
             xis, etas, weights = Gauss._Triangle(nPg)  # type: ignore [assignment]
 
         elif elemType == ElemType.TRI10:
-            nPg = 6
+            if matrixType == MatrixType.rigi:
+                nPg = 6
+            elif matrixType == MatrixType.mass:
+                nPg = 12
+            else:
+                raise ValueError("unknown matrixType")
             xis, etas, weights = Gauss._Triangle(nPg)  # type: ignore [assignment]
 
         elif elemType == ElemType.TRI15:
@@ -472,7 +477,12 @@ class Gauss:
             x, y, z, weights = Gauss._Tetrahedron(nPg)  # type: ignore [assignment]
 
         elif elemType == ElemType.TETRA10:
-            nPg = 4
+            if matrixType == MatrixType.rigi:
+                nPg = 4
+            elif matrixType == MatrixType.mass:
+                nPg = 15
+            else:
+                raise ValueError("unknown matrixType")
             x, y, z, weights = Gauss._Tetrahedron(nPg)  # type: ignore [assignment]
 
         elif elemType == ElemType.HEXA8:
@@ -492,7 +502,12 @@ class Gauss:
             x, y, z, weights = Gauss._Prism(nPg)  # type: ignore [assignment]
 
         elif elemType == ElemType.PRISM15:
-            nPg = 6
+            if matrixType == MatrixType.rigi:
+                nPg = 6
+            elif matrixType == MatrixType.mass:
+                nPg = 21
+            else:
+                raise ValueError("unknown matrixType")
             x, y, z, weights = Gauss._Prism(nPg)  # type: ignore [assignment]
 
         elif elemType == ElemType.PRISM18:
